@@ -38,11 +38,7 @@ Theorem C19_stream :
       exists i0, new n (mkReader (encode_all rs) ds d) = Ok (Some i0) /\
         forall fuel, (length rs < fuel)%nat -> next_all fuel i0 = Ok (rs, Some NEOF)
     end.
-Proof.
-  intros n ds d [|c rs] Hn Hs Hz.
-  - apply new_empty, Hn.
-  - apply stream_valid; try assumption. discriminate.
-Qed.
+Proof. exact stream_valid_or_empty. Qed.
 
 (** Ill-formed input is reported as an error and never altered: when the source is a valid
     prefix followed by bytes that do not start a well-formed sequence (Table 3-7 says ill-formed,
@@ -92,11 +88,7 @@ Theorem C19_spans :
     let s := mkSsrc rs false in
     concat (spans s (0%nat, 0%nat) ops) =
     encode_all (firstn (fst (snd (srun s (0%nat, 0%nat) ops))) rs).
-Proof.
-  intros rs ops s. pose proof (spans_concat ops rs 0 0 (le_n 0)) as H. cbn zeta in H. fold s in H.
-  destruct (snd (srun s (0%nat, 0%nat) ops)) as [b' f']. destruct H as (_ & _ & H).
-  rewrite H. unfold sub. rewrite Nat.sub_0_r. reflexivity.
-Qed.
+Proof. exact spans_from_start. Qed.
 
 Definition rd (src : list N) (ds : list decision) (d : decision) := mkReader src ds d.
 Definition one_byte := mkDec (AK 1) false.
